@@ -241,6 +241,20 @@ def lookup_compositions(E, crate, path, depth=0):
                         from_param = True
                 if xm is not None and xm.root[0] == "arg" and from_param:
                     out.append((side, xm.root[1], it_ap.root[1], it_ap.proj[0]))
+        # the lookup written as an index into the other mapper's table: `|&id| table[id]`
+        from flow import back_slice
+        for cb, ci, cs in cfa.stmts():
+            rv = cs.get("rv") or {}
+            pl = op_place(rv.get("op")) if rv.get("k") == "use" else None
+            idx = [e for e in (pl["p"] if pl else []) if isinstance(e, dict) and isinstance(e.get("i"), int)]
+            if not idx:
+                continue
+            x = E.ap_place(cfa, pl)
+            xm = Effects.map_closure_ap(x, caps) if x is not None else None
+            src = back_slice(cfa, {"c": {"l": idx[0]["i"], "p": []}}, lambda b_, t_: None)
+            if xm is not None and xm.root[0] == "arg" and xm.proj and str(xm.proj[0]) in ("left", "right") \
+                    and ("arg", 2) in src:
+                out.append((str(xm.proj[0]), xm.root[1], it_ap.root[1], it_ap.proj[0]))
     return out
 
 
